@@ -198,6 +198,17 @@ CHECKS = {
         "Bounds: <=12 options, <=30 actions.",
         "DESIGN.md 3/C17",
     ),
+    "C19": (
+        "exploration",
+        "property-based testing against a reference written from the docs plus order/subset metamorphic relations over generated directory trees (Hypothesis)",
+        "Generated trees of an IDF root, components, projects, nested projects, orphan directories with rename and defaults files (six "
+        "option names, so cross-project collisions are the rule) x invocations (ordered file subsets, explicit rename files, --includes). "
+        "Every verdict is compared with a cache-free reference of the documented scope rule, and must be the same in the reversed order "
+        "and when the file is checked alone in a fresh invocation.",
+        "Trusted: the scope rule as coded in vk/props/c19.py::_reference (docs/en/kconfcheck 'file scope'). The functions main() uses are "
+        "called directly with one shared cache; the click command line itself is not in the loop. Bounds: 15 directories, 6 names.",
+        "DESIGN.md 3/C19",
+    ),
 }
 
 NOT_YET = {}
